@@ -68,3 +68,22 @@ structure CacheSite where
   deriving DecidableEq, Repr, Inhabited
 
 end SpsdkVerif
+
+namespace SpsdkVerif
+
+/-- One cache action in the ordered program listing of a function (phase 2):
+    `act` ∈ exists | exists_dir | acquire | release | open_r | open_w | open_tmp | load | dump | replace | remove |
+    makedirs | typecheck | fpcompare | merge_compare | merge | clear_loaded | use_loaded | return_loaded | return |
+    set_fp | clear_fp | raise …;  `path` = enclosing branch conditions (outermost first: `exists`, `!exists`,
+    `match`, `mismatch`, `handler`, `if`, `else`, `differs`, …); `caught` = handler classes of the enclosing `try`
+    bodies, innermost first. -/
+structure ProgItem where
+  act : String
+  inLock : Bool
+  path : List String
+  caught : List (List Exc)
+  /-- for `typecheck` / `raise`: the class raised -/
+  exc : List Exc := []
+  deriving DecidableEq, Repr, Inhabited
+
+end SpsdkVerif
